@@ -6,6 +6,8 @@ VERIF = os.path.dirname(os.path.dirname(os.path.abspath(__file__)))
 SPECS = os.path.join(VERIF, "specs")
 RUNROOT = os.path.join(VERIF, "run")
 JAR = "/opt/veriftools/tla/tla2tools.jar"
+# the tree the harness is built from: /repo's working tree (VERIF_REPO is only used to try seeded changes in a scratch worktree)
+REPO = os.environ.get("VERIF_REPO", "/repo")
 
 
 class Infra(Exception):
@@ -61,19 +63,19 @@ class Work:
         t = time.time()
         ov = {"Replace": {}}
         for f in glob.glob(os.path.join(VERIF, "harness/sys/*.go")):
-            ov["Replace"]["/repo/internal/zz_verif/" + os.path.basename(f)] = f
+            ov["Replace"][REPO + "/internal/zz_verif/" + os.path.basename(f)] = f
         sub = {"oidc": "internal/oidc", "k8s": "internal/k8s", "internal": "internal", "authz": "internal/authz", "server": "internal/server"}
         for f in glob.glob(os.path.join(VERIF, "harness/shims/*_shim.go")):
             pkg = os.path.basename(f)[:-len("_shim.go")]
-            ov["Replace"]["/repo/%s/zz_verif_shim.go" % sub[pkg]] = f
+            ov["Replace"]["%s/%s/zz_verif_shim.go" % (REPO, sub[pkg])] = f
         with open(self.path("overlay.json"), "w") as fh:
             json.dump(ov, fh)
         self.bin = self.path("harness.test")
         p = subprocess.run(["go", "test", "-tags", "verif", "-overlay", self.path("overlay.json"), "-vet=off", "-c", "-o", self.bin,
-                            "./internal/zz_verif/"], cwd="/repo", env=goenv(), capture_output=True, text=True, timeout=900)
+                            "./internal/zz_verif/"], cwd=REPO, env=goenv(), capture_output=True, text=True, timeout=900)
         if p.returncode != 0:
             raise Infra("harness build failed:\n" + p.stdout[-3000:] + p.stderr[-3000:])
-        log("[build] harness built from /repo working tree in %.1fs" % (time.time() - t))
+        log("[build] harness built from %s working tree in %.1fs" % (REPO, time.time() - t))
 
     def drive(self, test, scenarios, name, env_extra=None, timeout=1800):
         """Run a driver test of the harness binary over a scenario file; returns the trace path."""
@@ -98,14 +100,14 @@ class Work:
         return out
 
     # ---- TLC ---------------------------------------------------------------
-    def tlc(self, module, cfg_text, name, workers=8, extra=None, timeout=900, simulate=None, expect_violation=False):
+    def tlc(self, module, cfg_text, name, workers=8, extra=None, timeout=900, simulate=None, expect_violation=False, jvm=None):
         d = self.path("tlc-" + name)
         os.makedirs(d, exist_ok=True)
         for f in glob.glob(os.path.join(SPECS, "*.tla")):
             shutil.copy(f, d)
         with open(os.path.join(d, name + ".cfg"), "w") as fh:
             fh.write(cfg_text)
-        cmd = ["java", "-XX:+UseParallelGC", "-Xss64m", "-cp", JAR + ":/opt/veriftools/tla/CommunityModules-deps.jar:/opt/veriftools/tla/*",
+        cmd = ["java", "-XX:+UseParallelGC", "-Xss64m"] + (jvm or []) + ["-cp", JAR + ":/opt/veriftools/tla/CommunityModules-deps.jar:/opt/veriftools/tla/*",
                "tlc2.TLC", "-workers", str(workers), "-metadir", os.path.join(d, "meta"), "-config", name + ".cfg"]
         if simulate:
             cmd += ["-simulate", simulate]
@@ -170,6 +172,8 @@ def load_known():
 
 
 def write_evidence(prop, tier, seed, level, coverage, wall, violations, assumptions):
+    if REPO != "/repo":
+        return  # trying a seeded change in a scratch worktree: the committed evidence describes /repo only
     os.makedirs(os.path.join(VERIF, "evidence"), exist_ok=True)
     ev = {"property_id": prop, "tier": tier, "seed": seed, "level": level, "coverage": coverage,
           "assumptions": assumptions, "wall_s": round(wall, 1), "violations": violations}
